@@ -1003,3 +1003,22 @@ async fn d26_seek_last_after_forward_run_off_the_end() {
 	assert!(it.seek_last().unwrap(), "D26: seek_last() after running off the end reports an empty range");
 	assert_eq!(it.key().user_key(), b"b");
 }
+
+// D27: Transaction::commit takes the write-set before the store commit; when that fails (here: write conflict) the
+// transaction stays open with an EMPTY write-set: a second commit() reports Ok(()) although nothing was written, and reads
+// no longer see the transaction's own pending writes.
+#[tokio::test(flavor = "multi_thread")]
+async fn d27_second_commit_after_failed_commit_reports_success() {
+	let d = td();
+	let opts = mk_opts(d.path().to_path_buf(), |_| {});
+	let tree = Tree::new(Arc::clone(&opts)).unwrap();
+	put(&tree, b"k", b"v0").await;
+	let mut loser = tree.begin().unwrap();
+	loser.set(b"k", b"from-loser").unwrap();
+	put(&tree, b"k", b"from-winner").await; // commits after `loser` began
+	let first = loser.commit().await;
+	assert!(first.is_err(), "precondition: write-write conflict");
+	let second = loser.commit().await;
+	assert!(second.is_err(), "D27: second commit() of a transaction whose commit failed returned Ok(()) -- nothing was written");
+	assert_eq!(tree.begin().unwrap().get(b"k").unwrap().as_deref(), Some(&b"from-winner"[..]));
+}
